@@ -713,4 +713,55 @@ example : pop 40 exHidden ['/', '/', 'o', '/', 'p', '/', 'q', '[', '0', ']'] (.s
       = .ok (.dict .n0 [(['a'], .int 1), (['o'], .dict .n0 [(['p'], .dict .n0 [])]),
           (['h'], .list .n0 [.int 1, .dict .n0 [(['x'], .int 1)], .dict .n0 []])], .int 1) := by decide
 
+/-- **C05 (hidden list around an ELEMENT of a list).**  `…h[i][e]`, `e` any spelling of `0` or `-1`, on an element
+`old` of a list that is not a list itself (`q0 ++ [idx i]` is its position): lookup returns `old`; `delete` and `pop`
+through that spelling are `delete` / `pop` of the canonical path `…h[i]` — the element is removed (`delAt`, later
+elements shift down), with `recursively=True` followed by `pruneUp` over the real ancestors; `pop` returns `old`. -/
+theorem C05_delete_hidden_list_elem (cls : Cls) (kvs : List (Str × Val)) (q0 : Pos) (i : Nat) (old d : Val) (e : IdxSp)
+    (fuel : Nat)
+    (hp : PlainPos (q0 ++ [Seg.idx i])) (hget : getAt (.dict cls kvs) (q0 ++ [Seg.idx i]) = some old)
+    (hs : isList old = false) (he : e.val = 0 ∨ e.val = -1) (hf : fuel ≥ 2 * (q0.length + 1) + 1) :
+    ∃ t', delAt (.dict cls kvs) (q0 ++ [Seg.idx i]) = some t' ∧
+      getItem fuel (.dict cls kvs) (slash ++ renderPos (q0 ++ [Seg.idx i]) ++ bracket e.text) = (.dict cls kvs, .ok old) ∧
+      delete fuel (.dict cls kvs) (slash ++ renderPos (q0 ++ [Seg.idx i]) ++ bracket e.text) false = (t', .ok ()) ∧
+      delete fuel (.dict cls kvs) (slash ++ renderPos (q0 ++ [Seg.idx i]) ++ bracket e.text) true
+        = (pruneUp t' q0 q0.length, .ok ()) ∧
+      pop fuel (.dict cls kvs) (slash ++ renderPos (q0 ++ [Seg.idx i]) ++ bracket e.text) d false = .ok (t', old) ∧
+      pop fuel (.dict cls kvs) (slash ++ renderPos (q0 ++ [Seg.idx i]) ++ bracket e.text) d true
+        = .ok (pruneUp t' q0 q0.length, old) ∧
+      ∀ r, delete fuel (.dict cls kvs) (slash ++ renderPos (q0 ++ [Seg.idx i]) ++ bracket e.text) r
+        = delete fuel (.dict cls kvs) (slash ++ renderPos (q0 ++ [Seg.idx i])) r := by
+  have hne : q0 ++ [Seg.idx i] ≠ [] := by simp
+  have hf' : fuel ≥ 2 * (q0 ++ [Seg.idx i]).length := by simp; omega
+  obtain ⟨t', ht', hdel⟩ := C05_delete cls kvs _ old hp hne hget fuel hf'
+  have hrec := C05_delete_recursive cls kvs _ old t' fuel hp hne hget ht' hf'
+  simp only [List.dropLast_concat, List.length_append, List.length_cons, List.length_nil, Nat.zero_add,
+    Nat.add_sub_cancel] at hrec
+  have hd := delete_hidden_elem cls kvs q0 i old e fuel
+  have hpop := pop_hidden_elem cls kvs q0 i old d e fuel
+  refine ⟨t', ht', getItem_hidden_elem cls kvs q0 i old e fuel hp hget hs he hf, ?_, ?_, ?_, ?_,
+    fun r => hd r hp hget hs he hf⟩
+  · rw [hd false hp hget hs he hf, hdel]
+  · rw [hd true hp hget hs he hf, hrec]
+  · rw [hpop false hp hget hs he hf, hdel]
+  · rw [hpop true hp hget hs he hf, hrec]
+
+/-- non-vacuity on `exHidden`: `//h[1][last()]` is the element `{x: 1}` of `h`; `h[2]` shifts into its place -/
+example : slash ++ renderPos ([.key ['h']] ++ [Seg.idx 1]) ++ bracket IdxSp.last.text
+    = ['/', '/', 'h', '[', '1', ']', '[', 'l', 'a', 's', 't', '(', ')', ']'] := by decide
+example : ∃ t', delAt exHidden [.key ['h'], .idx 1] = some t' ∧
+    getItem 40 exHidden ['/', '/', 'h', '[', '1', ']', '[', 'l', 'a', 's', 't', '(', ')', ']']
+      = (exHidden, .ok (.dict .n0 [(['x'], .int 1)])) ∧
+    delete 40 exHidden ['/', '/', 'h', '[', '1', ']', '[', 'l', 'a', 's', 't', '(', ')', ']'] false = (t', .ok ()) ∧
+    pop 40 exHidden ['/', '/', 'h', '[', '1', ']', '[', 'l', 'a', 's', 't', '(', ')', ']'] (.str ['D']) true
+      = .ok (pruneUp t' [.key ['h']] 1, .dict .n0 [(['x'], .int 1)]) :=
+  let ⟨t', h1, h2, h3, _, _, h6, _⟩ := C05_delete_hidden_list_elem .n0 _ [.key ['h']] 1 (.dict .n0 [(['x'], .int 1)]) (.str ['D'])
+    .last 40 ⟨pk 'h', trivial⟩ rfl rfl (Or.inr rfl) (by decide)
+  ⟨t', h1, h2, h3, h6⟩
+/-- the same instance evaluated (the real code: `d.pop('//h[1][last()]', 'D', recursively=True)` returns `{'x': 1}` and
+leaves `h: [1, {}]`) -/
+example : pop 40 exHidden ['/', '/', 'h', '[', '1', ']', '[', 'l', 'a', 's', 't', '(', ')', ']'] (.str ['D']) true
+    = .ok (.dict .n0 [(['a'], .int 1), (['o'], .dict .n0 [(['p'], .dict .n0 [(['q'], .int 1)])]),
+        (['h'], .list .n0 [.int 1, .dict .n0 []])], .dict .n0 [(['x'], .int 1)]) := by decide
+
 end N0.C05
